@@ -356,3 +356,53 @@ def union_compute_rng(W, cfg):
             for rs in getattr(W, 'gmm_random_states', []):
                 W.require(rs is not None, 'C11:mixture-fit-is-seeded',
                           'GaussianMixture(random_state=None)')
+
+
+def nb_contains(W, cfg):
+    """a nautilus bound contains no point outside the unit cube / its outer
+    bound, for ARBITRARY query points (including coordinates equal to 0 or 1)
+    with and without a phase shift"""
+    np = W.np
+    b, U = build_nautilus(W, dict(cfg, cache=0))
+    d = b.n_dim
+    X = sym_arr(W, 'X', (cfg.get('n', 1), d))
+    X0 = [[X[j][k] for k in range(d)] for j in range(len(X))]
+    ok, c = call(W, 'C07:nautilus-contains-no-raise', lambda: b.contains(X))
+    if not ok:
+        return
+    for j in range(len(X)):
+        for k in range(d):
+            W.require(W.same(X[j][k], X0[j][k]), 'C07:contains-input-unmodified',
+                      'cell %d,%d' % (j, k))
+        if W.symbolic:
+            import z3
+            from vlib.engine import SV, truth
+            cube = True
+            for k in range(d):
+                if b.shift is not None and k in list(cfg['periodic']):
+                    continue    # periodic coordinates are taken modulo one
+                cube = world._and(cube, world._and(X0[j][k] >= 0,
+                                                   X0[j][k] < 1))
+            W.require(SV(z3.Implies(truth(c[j]), truth(cube))),
+                      'C07:nautilus-contained-in-unit-cube', 'row %d' % j)
+            # and inside the outer bound evaluated at the reference shift
+            ref = []
+            for k in range(d):
+                x = X0[j][k]
+                if b.shift is not None and k in list(cfg['periodic']):
+                    i = list(cfg['periodic']).index(k)
+                    t = x + (0.5 - b.shift.centers[i])
+                    x = t - SV(z3.ToReal(z3.ToInt(t.t)))
+                ref.append(x)
+            inside = False
+            for m in U.bounds:
+                inside = world_or(W, inside, m._contains1(ref))
+            W.require(SV(z3.Implies(truth(c[j]), truth(inside))),
+                      'C07:nautilus-contained-in-outer-bound-reference',
+                      'row %d' % j)
+        else:
+            incube = all(0 <= X0[j][k] < 1 for k in range(d)
+                         if not (b.shift is not None and
+                                 k in list(cfg['periodic'])))
+            W.require((not c[j]) or incube,
+                      'C07:nautilus-contained-in-unit-cube', 'row %d' % j)
